@@ -122,7 +122,7 @@ def sv_total(m):
 
 
 def main():
-    a, rep, replay = parse(PROP)
+    a, rep, replay = parse(PROP, aged=True)
     rep.assumptions = [
         "exact world: feature j carries mode j, so each option acts on one mode; U orthonormal by QR",
         "standardisation convention kappa in {n, n-1} accepted (not fixed by the statement)",
